@@ -302,3 +302,57 @@ Theorem C40_search_hypothesis_sat :
   0 <= 1 < 3 /\ owns adr num 7 1 = true /\ (forall i, 0 <= i < 1 -> owns adr num 7 i = false).
 Proof. exact search_hypothesis_sat. Qed.
 Print Assumptions C40_search_hypothesis_sat.
+
+(* --- flex-vs-plane broadphase (collision_flex.py, translated into Gen/T_flex.v) ------------------- *)
+
+(* _flex_broadphase_bounds: the box it writes contains every vertex of the flex with
+   radius + margin + gap to spare on every side *)
+Theorem C40_flex_aabb_contains_vertices :
+  forall (w f : Z) (flex_margin flex_gap : Z -> R) (flex_vertadr flex_vertnum : Z -> Z) (flex_radius : Z -> R)
+         (px py pz : Z -> Z -> R) (omin omax : Z -> Z -> list R) (orc : nat -> Z),
+    0 < flex_vertnum f ->
+    let infl := (flex_radius f + (flex_margin f + flex_gap f))%R in
+    exists m0 m1 m2 M0 M1 M2 : R,
+      k__flex_broadphase_bounds w f flex_margin flex_gap flex_vertadr flex_vertnum flex_radius
+        (fun w i => [px w i; py w i; pz w i]) omin omax orc =
+      [ mkW "flex_aabb_min_out" [w; f] KSet (VV [m0; m1; m2]); mkW "flex_aabb_max_out" [w; f] KSet (VV [M0; M1; M2]) ] /\
+      forall i, 0 <= i < flex_vertnum f ->
+        (m0 + infl <= px w (flex_vertadr f + i)%Z <= M0 - infl)%R /\ (m1 + infl <= py w (flex_vertadr f + i)%Z <= M1 - infl)%R /\
+        (m2 + infl <= pz w (flex_vertadr f + i)%Z <= M2 - infl)%R.
+Proof. exact flex_aabb_contains_vertices. Qed.
+Print Assumptions C40_flex_aabb_contains_vertices.
+
+(* the geometric core: a point of the box shrunk by b lies at least
+   dist_center - sum_i |h_i n_i| + b  above the plane (unit normal) *)
+Theorem C40_box_plane_bound :
+  forall m0 m1 m2 M0 M1 M2 v0 v1 v2 p0 p1 p2 n0 n1 n2 b : R,
+    (n0*n0 + n1*n1 + n2*n2 = 1)%R -> (0 <= b)%R ->
+    (m0 + b <= v0 <= M0 - b)%R -> (m1 + b <= v1 <= M1 - b)%R -> (m2 + b <= v2 <= M2 - b)%R ->
+    (((1/2 * (m0 + M0) - p0) * n0 + (1/2 * (m1 + M1) - p1) * n1 + (1/2 * (m2 + M2) - p2) * n2)
+     - (Rabs (1/2 * (M0 - m0) * n0) + Rabs (1/2 * (M1 - m1) * n1) + Rabs (1/2 * (M2 - m2) * n2)) + b
+     <= (v0 - p0) * n0 + (v1 - p1) * n1 + (v2 - p2) * n2)%R.
+Proof. exact box_plane_bound. Qed.
+Print Assumptions C40_box_plane_bound.
+
+(* _flex_broadphase_plane: for a plane geom with unit normal and a box as guaranteed above (b >= radius),
+   the task of pair (vertex, plane) writes NOTHING exactly when the vertex sphere is not within margin of
+   the plane: the stage-1 box cull never discards a vertex that stage 2 would keep *)
+Theorem C40_plane_cull_conservative :
+  forall (w pairid : Z) (geom_type : Z -> Z) (geom_margin : Z -> Z -> R) (flex_margin flex_radius : Z -> R)
+         (pairs : Z -> list Z) (flex_vertflexid : Z -> Z) (geom_xpos_in geom_xmat_in flexvert_xpos_in : Z -> Z -> list R)
+         (naconmax : Z) (aabb_min aabb_max : Z -> Z -> list R) (ncollision overflow : Z -> Z) (cpair : Z -> list Z)
+         (cworld : Z -> Z) (orc : nat -> Z) (gm_shape0 : Z)
+         (r0 r1 r2 r3 r4 r5 r6 r7 r8 p0 p1 p2 v0 v1 v2 m0 m1 m2 M0 M1 M2 b : R),
+    let vertid := zget (pairs pairid) 0 in let geomid := zget (pairs pairid) 1 in let flexid := flex_vertflexid vertid in
+    geom_type geomid = 0 ->
+    geom_xmat_in w geomid = [r0; r1; r2; r3; r4; r5; r6; r7; r8] -> (r2*r2 + r5*r5 + r8*r8 = 1)%R ->
+    geom_xpos_in w geomid = [p0; p1; p2] -> flexvert_xpos_in w vertid = [v0; v1; v2] ->
+    aabb_min w flexid = [m0; m1; m2] -> aabb_max w flexid = [M0; M1; M2] ->
+    (flex_radius flexid <= b /\ 0 <= b)%R ->
+    ((m0 + b <= v0 <= M0 - b) /\ (m1 + b <= v1 <= M1 - b) /\ (m2 + b <= v2 <= M2 - b))%R ->
+    (k__flex_broadphase_plane w pairid geom_type geom_margin flex_margin flex_radius pairs flex_vertflexid
+       geom_xpos_in geom_xmat_in flexvert_xpos_in naconmax aabb_min aabb_max ncollision overflow cpair cworld orc gm_shape0 = []
+     <-> (geom_margin (Z.rem w gm_shape0) geomid + flex_margin flexid
+          <= ((v0 - p0) * r2 + (v1 - p1) * r5 + (v2 - p2) * r8) - flex_radius flexid)%R).
+Proof. exact plane_cull_conservative. Qed.
+Print Assumptions C40_plane_cull_conservative.
